@@ -33,6 +33,8 @@ type HStep struct {
 	Batches [][]U  `json:"batches,omitempty"`
 	End     string `json:"end,omitempty"`
 	Acts    []Act  `json:"acts,omitempty"` // what the supplier callback does during each call (see Case.Acts)
+	RepBatch int   `json:"rep_batch,omitempty"` // see Case.RepBatch
+	RepAt    int   `json:"rep_at,omitempty"`
 	// edits
 	At   int         `json:"at,omitempty"`
 	N    int         `json:"n,omitempty"`
@@ -98,7 +100,7 @@ func hStepValid(st HStep) string {
 		for _, b := range st.Batches {
 			n += len(b)
 		}
-		if len(st.Batches) > 8 || n > 40 || len(st.Acts) > 10 {
+		if len(st.Batches) > 9 || n > 40 || len(st.Acts) > 10 || st.RepBatch < 0 || st.RepBatch > 5000 {
 			return "supplier history too long"
 		}
 		for _, a := range st.Acts {
@@ -338,7 +340,7 @@ func checkHistory(ctx *pbt.Ctx, c HistCase) error {
 		switch st.Kind {
 		case "fund":
 			snap := hCopyModel(ref.FromLib(tx))
-			cc := Case{Tx: snap, Quote: q, Batches: st.Batches, End: st.End, Acts: st.Acts}
+			cc := Case{Tx: snap, Quote: q, Batches: expandBatches(st.Batches, st.RepAt, st.RepBatch), End: st.End, Acts: st.Acts}
 			funded := true
 			for _, in := range snap.In {
 				if len(in.TxID) != 32 || in.PrevNil || !ref.FeeIsP2PKH(in.PrevScript) {
@@ -547,7 +549,7 @@ func genHistCase(t *rapid.T) HistCase {
 		c.Steps = append(c.Steps, st)
 		switch st.Kind {
 		case "fund":
-			if r, err := runModel(Case{Tx: m, Quote: q, Batches: st.Batches, End: st.End, Acts: st.Acts}); err == nil {
+			if r, err := runModel(Case{Tx: m, Quote: q, Batches: expandBatches(st.Batches, st.RepAt, st.RepBatch), End: st.End, Acts: st.Acts}); err == nil {
 				if r.class == resOK || r.class == resExhausted || r.class == resSupplierErr {
 					m = hCopyModel(r.final)
 				}
@@ -574,6 +576,11 @@ func genHistCase(t *rapid.T) HistCase {
 		st := HStep{Kind: "fund"}
 		st.Batches, st.Acts = genBatches(t, m, q)
 		st.End = rapid.SampledFrom([]string{"exhausted", "error", "exhausted-wrapped"}).Draw(t, "end")
+		if rapid.IntRange(0, 299).Draw(t, "long_run") == 177 && len(m.In) < 20 { // a run of empty batches somewhere
+			fc := Case{Batches: st.Batches}
+			longRunEmpty(&fc, rapid.IntRange(0, len(st.Batches)).Draw(t, "long_at"), rapid.SampledFrom(longRunCounts).Draw(t, "long_n"))
+			st.Batches, st.RepAt, st.RepBatch = fc.Batches, fc.RepAt, fc.RepBatch
+		}
 		return st
 	}
 	// the first step is never a Fund call (that would be the "fund" sub-check's case)
